@@ -264,8 +264,14 @@ class AbsMachine:
                 v = self._deref(self.ev(e.args[0], env, chosen), env)
                 if isinstance(v, (AList, ADict)):
                     return len(v.items)
-                if isinstance(v, tuple):
+                if isinstance(v, (tuple, bytes, bytearray, str)):
                     return len(v)
+                return UNKNOWN
+            if isinstance(e.func, ast.Name) and e.func.id in ("bytes", "bytearray") and len(e.args) == 1 and not e.keywords:
+                v = self._deref(self.ev(e.args[0], env, chosen), env)
+                items = v.items if isinstance(v, AList) else v
+                if isinstance(items, (tuple, bytes)) and all(isinstance(x, int) and not isinstance(x, bool) and 0 <= x <= 255 for x in items):
+                    return bytes(items)
                 return UNKNOWN
             if isinstance(e.func, ast.Name) and e.func.id in ("list", "tuple", "set") and len(e.args) <= 1:
                 if not e.args:
@@ -364,9 +370,18 @@ class AbsMachine:
             return self._binop(e.op, a, b)
         if isinstance(e, ast.Subscript):
             base = self.ev(e.value, env, chosen)
+            if isinstance(e.slice, ast.Slice):
+                if isinstance(base, (tuple, bytes, str)):
+                    parts = [None if x is None else self.ev(x, env, chosen) for x in (e.slice.lower, e.slice.upper, e.slice.step)]
+                    if all(x is None or (isinstance(x, int) and not isinstance(x, bool)) for x in parts) and parts[2] != 0:
+                        return base[parts[0]:parts[1]:parts[2]]
+                return UNKNOWN
             idx = self.ev(e.slice, env, chosen)
-            if isinstance(base, tuple) and isinstance(idx, int) and -len(base) <= idx < len(base):
-                return base[idx]
+            if isinstance(base, (tuple, bytes)) and isinstance(idx, int) and not isinstance(idx, bool):
+                if -len(base) <= idx < len(base):
+                    return base[idx]
+                env["#pending_raise"] = "IndexError"
+                return UNKNOWN
             if isinstance(base, ADict):
                 if base.has(idx):
                     v = base.get(idx)
